@@ -19,6 +19,10 @@ CHECKS = {
          "exhaustive generation of derivation trees of an ES2022 generator grammar up to a size bound, each rendered to source in several legal spellings together with its expected AST.String() known by construction; exhaustive single-bracket mutations, forbidden operator sequences and lexical redeclarations as negatives",
          "All expression trees with one operator over 14 leaf kinds, with two and with three operators over ~70 operator forms (every binary/assignment/prefix/update operator, conditional, comma, member, optional chain, call, new, tagged template, arrow, yield) in every shape are spelled with minimal parentheses from an independent ECMA-262 precedence table, fully parenthesised, with one redundant pair at each node and with whitespace/comments, and must parse to exactly the expected String(); likewise every statement kind x sub-statements x expressions to nesting depth 2, ~300 declaration/class/parameter/import/export forms, all ordered pairs of 48 statements x 5 separators and 45 ASI situations x 5 line-terminator kinds, under all four Options (WhileToFor: the equivalent for-loop). Negatives that must return an error: every single bracket deletion/insertion of the one-operator programs, sampled statement programs and declaration forms; every forbidden operator sequence alone and at every operand position; every ordered pair of let/const/class declarations of one name in 12 scope kinds with nothing or any of 16 statements between them.",
          "Trusted base: the renderer (transcription of the String() layout of js/ast.go, precedence table). Representation conventions encoded in the expectation and listed in DESIGN.md: loop bodies are blocks, 'new a()' drops the empty argument list, an empty statement directly after another statement on the same line and trailing elisions of binding patterns are not represented."),
+ "C04": ("exploration",
+         "exhaustive enumeration of scope skeletons up to a node bound with a textbook resolver as reference model; the parser's resolution is observed through the rename-print-relex differential the property itself states",
+         "All programs built from up to 3 nodes over 34 statement forms (declarations of every kind, uses, blocks, loops with lexical/var/const heads, try/catch, named/anonymous function expressions, arrows of three shapes, methods, parameter defaults referring to parameters or outer/body names, destructuring, switch, arrow-head look-alikes, labels, class expressions) x names {a,b} in every order, 4 nodes over a 10-19 form core and 5 (6) nodes over a 6-10 form core: a reference resolver labels every identifier occurrence with its binding or as global and predicts lexical redeclarations (which must be rejected). For accepted programs every Var in every Scope.Declared gets a fresh name, the tree is printed with JS(), the output is re-lexed with the C06 reference lexer and re-parsed: occurrences of one binding must carry one fresh name, different bindings different names, globals their original name, and every Var.Uses must equal the number of times its name is printed.",
+         "Skipped as ambiguous (counted): programs invalid for other reasons than a lexical redeclaration or on which function-hoisting and ES2022 block scoping disagree. A function-expression name that is fully shadowed in its own body may share the shadowing Var. Two known findings (class-expression names are bound nowhere; head/body of loops and parameter lists share one Var per name) are reported as KNOWN-FINDING and identified by construct and name."),
  "C05": ("exploration",
          "bounded-exhaustive enumeration of accepted programs (atom sequences, edit balls, seed pairs, a literal/indentation family) x Options through the real parse -> print -> parse -> print loop with tree comparison",
          "For every input js.Parse accepts among: all valid-UTF-8 strings up to 4 (5) atoms over the JS core alphabet and 2 (3) over the full one, all single-edit neighbours of ~150 seed programs, ordered pairs of seeds joined by newline/semicolon/space, and a family of 13 literals with line breaks or escapes x 11 syntactic positions x 8 block wrappers x nesting depth 0..3 (indentation 0..12) - under all four Options - the printed text must parse, print identically again, yield the same String() tree after removing GroupExpr nodes from both trees, and contain every string/template/regexp/numeric literal, kept comment and directive byte for byte.",
